@@ -1,3 +1,4 @@
+import Lean.Elab.Tactic
 import Nstd.Generated.BufferBody
 import Nstd.Buffer.LemmasBuf
 /-
@@ -22,14 +23,48 @@ theorem rd_all (d : List Byte) : rd d 0 d.length = d := by simp [rd]
 
 theorem rd_zero (m : List Byte) (off : Nat) : rd m off 0 = [] := by simp [rd]
 
+/-- conditions are decided by `omega` from the case hypotheses, whatever way the source spells them -/
+theorem dec_true {p : Prop} [Decidable p] (h : p) : decide p = true := by simp [h]
+theorem dec_false {p : Prop} [Decidable p] (h : ¬ p) : decide p = false := by simp [h]
+
 /-- unfold both machines and compute; side conditions of the checked loads/stores by `omega` -/
-macro "tr_simp" "[" ts:Lean.Parser.Tactic.simpLemma,* "]" : tactic => `(tactic|
+macro "tr_simp1" "[" ts:Lean.Parser.Tactic.simpLemma,* "]" : tactic => `(tactic|
   simp (disch := ((try simp only [rd_length, wr_length, fresh_length, List.length_cons, List.length_nil, List.length_map, bytesOf]); omega))
     [objOf, heapOf, blocksOf, attOf, out, outB, bind, pure, branch, val, C.led, ngt, nlt, nge, nle, neq, nadd, nsub, pdiff, padd, psub,
      ple, plt, pge, pgt, peq, prel, tern, band, bor, bnot, truthy, nullPtr, cellPtr,
      newArr, memcopy, memmove, load, store, store0, deleteArr, getBlk, setBlk, disjoint, allocId, checkLive, deleteId, newBlock,
      Store.load, Store.write, Store.release, liftO, newCap, ptrSub, Buf.termIfOwning, Buf.home, Buf.owning, Buf.default, cfault, fault,
      noOverlap, rd_all, rd_zero, rdList_some, wrList_some, List.lookup, List.filter_cons, List.filter_nil, List.map_cons, List.map_nil, $ts,*, *])
+
+/-- decide the conditions the computation is stuck at from the case hypotheses (`omega`), however the source spells them -/
+macro "tr_fix" : tactic => `(tactic|
+  simp (disch := ((try simp only [rd_length, wr_length, fresh_length, List.length_cons, List.length_nil, List.length_map, bytesOf]); omega)) only
+    [dec_true, dec_false, if_pos, if_neg])
+
+open Lean Elab Tactic Meta in
+/-- case split on the first closed condition (`decide p` / `if p then … else …`) the goal still contains -/
+elab "split_cond" : tactic => withMainContext do
+  let g ← getMainTarget
+  let cond? := g.find? (fun e =>
+    (e.isAppOfArity ``Decidable.decide 2 && !(e.getArg! 0).hasLooseBVars) ||
+    (e.isAppOfArity ``ite 5 && !(e.getArg! 1).hasLooseBVars))
+  match cond? with
+  | none => throwError "split_cond: no undecided condition"
+  | some e =>
+    let p := if e.isAppOfArity ``Decidable.decide 2 then e.getArg! 0 else e.getArg! 1
+    let (s1, s2) ← (← getMainGoal).byCases p `hsc
+    replaceMainGoal [s1.mvarId, s2.mvarId]
+
+/-- symbolic execution; when it stops at a condition spelled differently from the case hypotheses, decide it and go on -/
+macro "tr_simp" "[" ts:Lean.Parser.Tactic.simpLemma,* "]" : tactic => `(tactic| (
+  tr_simp1 [$ts,*]
+  all_goals try (tr_fix; tr_simp1 [$ts,*])
+  all_goals try (tr_fix; tr_simp1 [$ts,*])
+  -- a condition that the case hypotheses do not determine (a rewrite of the source may test something else): split on it
+  all_goals try (split_cond <;> (first | (exfalso; omega) | (tr_simp1 [$ts,*]; all_goals try (tr_fix; tr_simp1 [$ts,*]))))
+  all_goals try (split_cond <;> (first | (exfalso; omega) | (tr_simp1 [$ts,*]; all_goals try (tr_fix; tr_simp1 [$ts,*]))))
+  all_goals try (split_cond <;> (first | (exfalso; omega) | (tr_simp1 [$ts,*]; all_goals try (tr_fix; tr_simp1 [$ts,*]))))
+  all_goals try (first | (simp; done) | (refine ⟨_, _, ⟨rfl, rfl⟩, ?_⟩; first | (simp; done) | (simp; all_goals (congr <;> omega)) | (and_intros <;> first | rfl | (congr <;> omega))))))
 
 set_option hygiene false in
 /-- the facts about an owning object `own id m` with ledger `L` that the computation needs -/
